@@ -22,6 +22,9 @@ type VerifPageStep struct {
 	FnIn      int    // footnotes reported by the previous page
 	FnOut     int    // footnotes reported to the next page
 	Broken    int    // broken out-of-flow boxes left for the next page
+	// footnotes not placed on a page yet (waiting list + reported), before and
+	// after the page
+	UnplacedIn, UnplacedOut int
 }
 
 // VerifPageTrace builds the formatting structure like [Layout] and runs the
@@ -53,7 +56,8 @@ func VerifPageTrace(html *tree.HTML, stylesheets []tree.CSS, presentationalHints
 		in := context.pageMaker[i]
 		step := VerifPageStep{
 			Right: in.RightPage, BreakIn: in.InitialNextPage.Break, ResumeIn: str(in.InitialResumeAt),
-			FnIn: len(context.reportedFootnotes),
+			FnIn:       len(context.reportedFootnotes),
+			UnplacedIn: len(context.footnotes) + len(context.reportedFootnotes),
 		}
 		context.pageMaker[i].RemakeState = tree.RemakeState{}
 		page, resumeAt := context.remakePage(i, rootBox, html)
@@ -62,6 +66,7 @@ func VerifPageTrace(html *tree.HTML, stylesheets []tree.CSS, presentationalHints
 		step.BreakOut = context.pageMaker[i+1].InitialNextPage.Break
 		step.FnOut = len(context.reportedFootnotes)
 		step.Broken = len(context.brokenOutOfFlow.values())
+		step.UnplacedOut = len(context.footnotes) + len(context.reportedFootnotes)
 		steps = append(steps, step)
 		if resumeAt == nil && len(context.reportedFootnotes) == 0 {
 			return steps, footnotes, rootLTR, false
